@@ -116,6 +116,8 @@ Definition load_token (dirname : string) (st : lstate) (token : string) : option
         | [o; n; nm] =>
             match parse_nonneg 64 o, parse_nonneg 64 n with
             | Some offset, Some length =>
+                (* "offset+length < offset" (int64 wrap): bad file segment *)
+                if match fs_end offset length with None => true | Some _ => false end then None else
                 let name := dirname ++ "/" ++ fs_unescape nm in
                 match create_file_and_parents (l_tree st) name with
                 | None => None
